@@ -195,7 +195,7 @@ pub fn judge(_part: &str, case: &Case, tally: &mut Tally) -> Verdict {
     }
 }
 
-fn gen_case(src: &mut Src, with_resize: bool) -> Case {
+pub fn gen_case(src: &mut Src, with_resize: bool) -> Case {
     let (cols, rows) = if src.chance(1, 30) { (40, 10) } else { gen::small_size(src) };
     let mut g = G::new(cols, rows).no_alt().no_ris();
     g.w[gen::CAT_TEXT] = 16;
@@ -231,10 +231,10 @@ fn gen_case(src: &mut Src, with_resize: bool) -> Case {
     case
 }
 
-fn gen_plain(src: &mut Src, _i: usize) -> Case {
+pub fn gen_plain(src: &mut Src, _i: usize) -> Case {
     gen_case(src, false)
 }
-fn gen_resize(src: &mut Src, _i: usize) -> Case {
+pub fn gen_resize(src: &mut Src, _i: usize) -> Case {
     gen_case(src, true)
 }
 
